@@ -63,6 +63,8 @@ def gen_txns(rnd):
             tags = tags + [rnd.choice(['refund', 'q1', rnd.choice(HOSTILE)])]
         if rnd.random() < .1:
             tags = [rnd.choice(['income', 'transfer', 'investment'])] + tags     # same merchant, different bucket
+        if rnd.random() < .05:
+            tags = tags + ['2025', 'auto', 'bank', 'joint', 'monthly', 'recurring', 'savings', 'scheduled', 'zeta', rnd.choice(['transfer', 'income', 'weekly'])]
         amt = round(rnd.choice([1, 1, 1, -1]) * rnd.choice([0.01, 5, 12.5, 99.99, 1234.56, 250000, 0.5]), 2)
         if rnd.random() < .03:
             amt = 0.0
@@ -323,17 +325,41 @@ def judge(rec, txns, hostile, rnd, tmp, with_views):
                 rec.violation('separate-data-file-does-not-decode', f'{type(e).__name__}: {e}', case)
                 continue
         check_html_data(rec, data, stats, txns, want, case, with_views)
+        # ---- the report is written AGAIN to the same path after the data changed (two amounts swapped: the text keeps its length):
+        #      what is on disk afterwards is the new analysis, not the old file
+        if embedded and not with_views and rnd.random() < .35:
+            pairs = [(i, j) for i in range(len(txns)) for j in range(i + 1, len(txns))
+                     if txns[i]['amount'] != txns[j]['amount'] and len(repr(txns[i]['amount'])) == len(repr(txns[j]['amount']))
+                     and (txns[i]['amount'] < 0) == (txns[j]['amount'] < 0)]
+            if pairs:
+                i, j = rnd.choice(pairs)
+                t2 = copy.deepcopy(txns)
+                t2[i]['amount'], t2[j]['amount'] = txns[j]['amount'], txns[i]['amount']
+                st2 = A.analyze_transactions(copy.deepcopy(t2))
+                want2 = {'income': st2['income_total'], 'spending': st2['spending_total'], 'credits': st2['credits_total'], 'cash_flow': st2['cash_flow'],
+                         'transfers_in': st2['transfers_in'], 'transfers_out': st2['transfers_out'], 'transfers_net': st2['transfers_net']}
+                try:
+                    A.write_summary_file_vue(st2, path, year=2025, currency_format=cur, sources=sorted({t['source'] for t in txns}), embedded_html=True)
+                    d2, err = extract_data(open(path, encoding='utf-8').read())
+                    rec.count('html_rewrites_to_same_path')
+                    if err:
+                        rec.violation('html-data-does-not-decode:rewrite', err, case)
+                    else:
+                        c2 = dict(case, rewrite_swaps=[i, j])
+                        check_html_data(rec, d2, st2, t2, want2, c2, False, key_suffix=':after-rewrite-to-same-path')
+                except Exception as e:
+                    rec.violation('write_summary_file_vue-raises:' + type(e).__name__, f'rewrite: {type(e).__name__}: {e}', case)
     if hostile and len(stats['by_merchant']) >= 2:
         rec.interesting(core.digest(case['txns']))
 
 
-def check_html_data(rec, data, stats, txns, want, case, with_views):
+def check_html_data(rec, data, stats, txns, want, case, with_views, key_suffix=''):
     from tally.classification import normalize_amount
     rec.count('figure_comparisons')
     for k, hk in (('income', 'incomeTotal'), ('spending', 'spendingTotal'), ('credits', 'creditsTotal'), ('cash_flow', 'cashFlow'),
                   ('transfers_in', 'transfersIn'), ('transfers_out', 'transfersOut'), ('transfers_net', 'transfersNet')):
         if not math.isclose(data.get(hk, float('nan')), want[k], rel_tol=1e-12, abs_tol=1e-9):
-            rec.violation('html-figure-differs:' + k, f'{hk}={data.get(hk)!r} vs analysed {want[k]!r}', case)
+            rec.violation('html-figure-differs:' + k + key_suffix, f'{hk}={data.get(hk)!r} vs analysed {want[k]!r}', case)
             return
     seen_m, seen_t = Counter(), Counter()
     cat_sum = 0.0
@@ -344,6 +370,15 @@ def check_html_data(rec, data, stats, txns, want, case, with_views):
                 seen_m[m['displayName']] += 1
                 for t in m['transactions']:
                     seen_t[tx_key(m['displayName'], t['description'], t['amount'], t['month'], t['tags'], t['source'], t.get('extra_fields'))] += 1
+    # each merchant record carries the tags of its transactions - all of them (the page classifies and filters by this list)
+    for cat in data['categoryView'].values():
+        for sub in cat['subcategories'].values():
+            for m in sub['merchants'].values():
+                rec.count('html_merchant_tag_checks')
+                want_tags = sorted(stats['by_merchant'].get(m['displayName'], {}).get('tags', set()))
+                if sorted(m.get('tags', [])) != want_tags:
+                    rec.violation('html-merchant-tags-differ' + key_suffix, f'merchant {m["displayName"]!r}: tags in the report {sorted(m.get("tags", []))} vs analysed {want_tags}', case)
+                    return
     exp_m = Counter(stats['by_merchant'].keys())
     if seen_m != exp_m:
         missing = sorted(set(exp_m) - set(seen_m))
@@ -357,7 +392,7 @@ def check_html_data(rec, data, stats, txns, want, case, with_views):
     rec.count('html_transactions_compared', sum(exp_t.values()))
     if seen_t != exp_t:
         d1, d2 = list((exp_t - seen_t).elements())[:2], list((seen_t - exp_t).elements())[:2]
-        rec.violation('html-transactions-not-exactly-once', f'missing from the report: {d1}; unexpected in the report: {d2}', case)
+        rec.violation('html-transactions-not-exactly-once' + key_suffix, f'missing from the report: {d1}; unexpected in the report: {d2}', case)
         return
     tot = sum(d['total'] for d in stats['by_merchant'].values())
     if not math.isclose(cat_sum, tot, rel_tol=1e-9, abs_tol=1e-6):
